@@ -419,7 +419,9 @@ func packableKind(k string) bool { return k != "string" && k != "bytes" && k != 
 // unknownField renders a random well-formed field whose number is not in use by type t.
 func (s Schema) unknownField(t string, r *rand.Rand) []byte {
 	for {
-		n := []int{7, 18, 19, 50, 999, 70000, 1 << 27, 1<<29 - 1}[r.Intn(8)]
+		// includes the numbers at which the tag key grows by a byte (16, 2048, 262144, 33554432) and their predecessors
+		nums := []int{7, 18, 19, 50, 999, 70000, 1 << 27, 1<<29 - 1, 15, 16, 2047, 2048, 262143, 262144, 33554431, 33554432}
+		n := nums[r.Intn(len(nums))]
 		if _, i := s.Field(t, n); i >= 0 {
 			continue
 		}
@@ -441,6 +443,46 @@ func (s Schema) unknownField(t string, r *rand.Rand) []byte {
 			b = protowire.AppendBytes(b, p)
 		}
 		return b
+	}
+}
+
+// WithUnknowns returns a copy of m with unknown fields added at the top level and, with some probability, inside the messages
+// nested in it (singular, repeated, map values, oneof members): what Unmarshal of newer-schema data leaves behind.
+func (s Schema) WithUnknowns(t string, m AM, r *rand.Rand, depth int) AM {
+	c := cloneAM(m)
+	s.addUnknowns(t, &c, r, depth, true)
+	return c
+}
+
+func (s Schema) addUnknowns(t string, m *AM, r *rand.Rand, depth int, force bool) {
+	if force || r.Intn(2) == 0 {
+		for k := 1 + r.Intn(2); k > 0; k-- {
+			m.U = append(m.U, tr.Bytes(s.unknownField(t, r))...)
+		}
+	}
+	if depth > 3 {
+		return
+	}
+	for i, fd := range s.must(t) {
+		f := &m.F[i]
+		switch {
+		case fd.K == "message" && fd.C != "rep" && fd.C != "map":
+			if f.P == 1 && len(f.V.M) == 1 {
+				s.addUnknowns(fd.T, &f.V.M[0], r, depth+1, false)
+			}
+		case fd.K == "message" && fd.C == "rep":
+			for j := range f.L {
+				if len(f.L[j].M) == 1 {
+					s.addUnknowns(fd.T, &f.L[j].M[0], r, depth+1, false)
+				}
+			}
+		case fd.C == "map" && fd.Mv == "message":
+			for j := range f.KV {
+				if len(f.KV[j].V.M) == 1 {
+					s.addUnknowns(fd.Mt, &f.KV[j].V.M[0], r, depth+1, false)
+				}
+			}
+		}
 	}
 }
 
